@@ -8,6 +8,8 @@ C13 — the adaptable parameters of the mutation components IN THE STATE, across
     `into_parent` push / pop);
   * `Component::init` of the six components (`state.insert(..)` of the component's own values),
     `Block::init` / `Block::execute`, `Loop` (init once, body executed `n` times),
+    `Branch` (`if_` / `if_else_`: `init` initialises the condition, the if body AND the else body at the level of
+    the enclosing block; `execute` runs the body the condition selects),
     `Scope::execute` (`with_inner_state`: push, `body.init`, `body.execute`, pop — also when the body fails),
     `Configuration::run` (init, then execute) — several runs on ONE state.
 
@@ -126,12 +128,15 @@ end Exec
 /-! ## Configurations -/
 
 /-- The children of a `Block`, in order (`done` = end of the block): a mutation component, a `Scope`
-around a block, a `Loop` (`while iterations < n`) around a block. -/
+around a block, a `Loop` (`while iterations < n`) around a block, a `Branch` (`cond` = what its condition
+evaluates to; a `Branch` without else body is one whose else body is the empty block: nothing to initialise,
+nothing to execute). -/
 inductive Cfg (F : Type) where
   | done
   | leaf (c : PComp F) (rest : Cfg F)
   | scope (body : Cfg F) (rest : Cfg F)
   | loop (n : Nat) (body : Cfg F) (rest : Cfg F)
+  | branch (cond : Bool) (thenB elseB : Cfg F) (rest : Cfg F)
 
 /-- One execution of a mutation component: the instance, what it read from the state, how its guards answered. -/
 structure Obs (F : Type) where
@@ -154,12 +159,14 @@ section Run
 variable {F : Type}
 
 /-- `Block::init`: every child in order; `Scope` has no `init` (its body is initialised when it executes),
-`Loop::init` initialises its body. -/
+`Loop::init` initialises its body, `Branch::init` initialises the if body and then the else body (both, whatever
+the condition will say). -/
 def Cfg.init : Cfg F → PChain F → PChain F
   | .done, ch => ch
   | .leaf c rest, ch => rest.init (compInit c ch)
   | .scope _ rest, ch => rest.init ch
   | .loop _ body rest, ch => rest.init (body.init ch)
+  | .branch _ tb eb rest, ch => rest.init (eb.init (tb.init ch))
 
 variable [LE F] [DecidableLE F] [OfNat F 0] [OfNat F 1] [OfNat F 2]
 
@@ -184,6 +191,7 @@ def Cfg.exec : Cfg F → RunSt F → RunSt F
       let inner := body.exec { st with chain := body.init st.chain.push }
       rest.exec { inner with chain := inner.chain.pop }
   | .loop n body rest, st => rest.exec (iterate body.exec n st)
+  | .branch b tb eb rest, st => rest.exec (if b then tb.exec st else eb.exec st)
 
 /-- `Configuration::run` on a state: `init`, then `execute`. -/
 def Cfg.run (cfg : Cfg F) (ch : PChain F) : RunSt F := cfg.exec ⟨cfg.init ch, [], true⟩
@@ -202,12 +210,14 @@ end Run
 section Wf
 variable {F : Type}
 
-/-- The instances initialised at the level of this block (loops belong to the level, scopes do not). -/
+/-- The instances initialised at the level of this block (loops and BOTH arms of a branch belong to the level,
+scopes do not). -/
 def Cfg.level : Cfg F → List (PComp F)
   | .done => []
   | .leaf c rest => c :: rest.level
   | .scope _ rest => rest.level
   | .loop _ body rest => body.level ++ rest.level
+  | .branch _ tb eb rest => tb.level ++ (eb.level ++ rest.level)
 
 /-- Two instances of the same type and identifier at one level share their states: they must have been
 given the same values (otherwise the later `init` wins — that is what identifiers are for). `eqv` decides
@@ -225,6 +235,7 @@ def Cfg.consistent (eqv : Param F → Param F → Bool) : Cfg F → Bool
   | .leaf _ rest => rest.consistent eqv
   | .scope body rest => levelConsistent eqv body.level && body.consistent eqv && rest.consistent eqv
   | .loop _ body rest => body.consistent eqv && rest.consistent eqv
+  | .branch _ tb eb rest => tb.consistent eqv && (eb.consistent eqv && rest.consistent eqv)
 
 /-- The whole configuration: its own level and everything nested. -/
 def Cfg.wellFormedBy (eqv : Param F → Param F → Bool) (cfg : Cfg F) : Bool :=
@@ -233,13 +244,15 @@ def Cfg.wellFormedBy (eqv : Param F → Param F → Bool) (cfg : Cfg F) : Bool :
 /-- … with equality of the carrier. -/
 def Cfg.wellFormed [DecidableEq F] (cfg : Cfg F) : Bool := cfg.wellFormedBy (fun a b => decide (a = b))
 
-/-- The executions of a run that does not fail, in order: loops unrolled, scopes entered (specification side:
+/-- The executions of a run that does not fail, in order: loops unrolled, scopes entered, of a branch
+the arm its condition selects (specification side:
 independent of the registries). -/
 def Cfg.unroll : Cfg F → List (PComp F)
   | .done => []
   | .leaf c rest => c :: rest.unroll
   | .scope body rest => body.unroll ++ rest.unroll
   | .loop n body rest => (List.replicate n body.unroll).flatten ++ rest.unroll
+  | .branch b tb eb rest => (if b then tb.unroll else eb.unroll) ++ rest.unroll
 end Wf
 
 end MahfModel.Variation
